@@ -173,6 +173,230 @@ theorem decodeMap_total {b : Bytes} {m : Map} {rest : Bytes} (h : decodeMap b = 
   · cases h
 
 end Cbor
+/-! ### Base58 -/
+namespace Base58
+open Askar.Crypto.Base58
+
+theorem ofLE_toLE (b : Nat) (hb : 2 ≤ b) : ∀ fuel n, n ≤ fuel → ofLE b (toLE b fuel n) = n
+  | 0, n, h => by
+    have : n = 0 := by omega
+    subst this; rfl
+  | fuel + 1, n, h => by
+    simp only [toLE]
+    split
+    · next h0 => simp [ofLE, h0]
+    · next h0 =>
+      have hlt : n / b < n := Nat.div_lt_self (by omega) (by omega)
+      simp only [ofLE, ofLE_toLE b hb fuel (n / b) (by omega)]
+      exact Nat.mod_add_div n b
+
+theorem toLE_lt (b : Nat) (hb : 0 < b) : ∀ fuel n, ∀ d ∈ toLE b fuel n, d < b
+  | 0, n, d, hd => by simp [toLE] at hd
+  | fuel + 1, n, d, hd => by
+    simp only [toLE] at hd
+    split at hd
+    · simp at hd
+    · rcases List.mem_cons.mp hd with rfl | h
+      · exact Nat.mod_lt _ hb
+      · exact toLE_lt b hb fuel _ d h
+
+theorem toLE_zero (b fuel : Nat) : toLE b fuel 0 = [] := by
+  cases fuel <;> simp [toLE]
+
+/-- no most-significant zero digit -/
+theorem toLE_getLast (b : Nat) (hb : 2 ≤ b) : ∀ fuel n, n ≤ fuel → ∀ d, (toLE b fuel n).getLast? = some d → d ≠ 0
+  | 0, n, _, d, hd => by simp [toLE] at hd
+  | fuel + 1, n, h, d, hd => by
+    simp only [toLE] at hd
+    split at hd
+    · simp at hd
+    · next h0 =>
+      have hlt : n / b < n := Nat.div_lt_self (by omega) (by omega)
+      cases hq : toLE b fuel (n / b) with
+      | nil =>
+        -- then n / b = 0, the only digit is n itself
+        have hz : n / b = 0 := by
+          have := ofLE_toLE b hb fuel (n / b) (by omega)
+          rw [hq] at this; simpa [ofLE] using this.symm
+        have hnb : n < b := by
+          rcases Nat.lt_or_ge n b with h | h
+          · exact h
+          · have := Nat.div_pos h (by omega); omega
+        rw [hq] at hd
+        simp only [List.getLast?_singleton, Option.some.injEq] at hd
+        rw [Nat.mod_eq_of_lt hnb] at hd
+        omega
+      | cons x xs =>
+        rw [hq, List.getLast?_cons_cons] at hd
+        exact toLE_getLast b hb fuel (n / b) (by omega) d (by rw [hq]; exact hd)
+
+theorem ofLE_append_zeros (b : Nat) (l : List Nat) (z : Nat) : ofLE b (l ++ List.replicate z 0) = ofLE b l := by
+  induction l with
+  | nil =>
+    induction z with
+    | zero => rfl
+    | succ z ih => simp only [List.nil_append] at ih; simp [List.replicate_succ, ofLE, ih]
+  | cons d ds ih => simp only [List.cons_append, ofLE, ih]
+
+theorem ofLE_pos (b : Nat) (hb : 2 ≤ b) : ∀ ds : List Nat, ds ≠ [] → (∀ d, ds.getLast? = some d → d ≠ 0) → 0 < ofLE b ds
+  | [], h, _ => absurd rfl h
+  | [d], _, hl => by
+    have := hl d (by simp)
+    simp only [ofLE]; omega
+  | d :: e :: ds, _, hl => by
+    have := ofLE_pos b hb (e :: ds) (by simp) (fun x hx => hl x (by rw [List.getLast?_cons_cons]; exact hx))
+    simp only [ofLE] at this ⊢
+    have : 0 < b * (e + b * ofLE b ds) := Nat.mul_pos (by omega) this
+    omega
+
+theorem toLE_ofLE (b : Nat) (hb : 2 ≤ b) : ∀ ds : List Nat, (∀ d ∈ ds, d < b) → (∀ d, ds.getLast? = some d → d ≠ 0) →
+    ∀ fuel, ofLE b ds ≤ fuel → toLE b fuel (ofLE b ds) = ds
+  | [], _, _, fuel, _ => by simp [ofLE, toLE_zero]
+  | d :: ds, hlt, hl, fuel, hf => by
+    have hpos : 0 < ofLE b (d :: ds) := ofLE_pos b hb (d :: ds) (by simp) hl
+    have hd : d < b := hlt d (by simp)
+    cases fuel with
+    | zero => omega
+    | succ f =>
+      have hne : ¬ (ofLE b (d :: ds) = 0) := by omega
+      simp only [toLE, hne, if_false]
+      simp only [ofLE] at hf ⊢
+      have hm : (d + b * ofLE b ds) % b = d := by
+        rw [Nat.add_mul_mod_self_left, Nat.mod_eq_of_lt hd]
+      have hq : (d + b * ofLE b ds) / b = ofLE b ds := by
+        rw [Nat.add_mul_div_left _ _ (by omega : 0 < b), Nat.div_eq_of_lt hd, Nat.zero_add]
+      rw [hm, hq]
+      have hle : ofLE b ds ≤ f := by
+        have : ofLE b ds ≤ b * ofLE b ds := Nat.le_mul_of_pos_left _ (by omega)
+        rcases Nat.eq_zero_or_pos (ofLE b ds) with h0 | h0
+        · omega
+        · have : 2 * ofLE b ds ≤ b * ofLE b ds := Nat.mul_le_mul_right _ hb
+          omega
+      have hl' : ∀ x, ds.getLast? = some x → x ≠ 0 := by
+        intro x hx
+        cases ds with
+        | nil => simp at hx
+        | cons e es => exact hl x (by rw [List.getLast?_cons_cons]; exact hx)
+      rw [toLE_ofLE b hb ds (fun x hx => hlt x (by simp [hx])) hl' f hle]
+
+theorem takeWhile_zeros_append {α : Type} (p : α → Bool) (a : α) (hp : p a = true) (z : Nat) (l : List α) :
+    (List.replicate z a ++ l).takeWhile p = List.replicate z a ++ l.takeWhile p := by
+  induction z with
+  | zero => rfl
+  | succ z ih => simp [List.replicate_succ, List.takeWhile_cons, hp, ih]
+
+theorem takeWhile_eq_nil_of_head {α : Type} (p : α → Bool) (l : List α) (h : ∀ x, l.head? = some x → p x = false) :
+    l.takeWhile p = [] := by
+  cases l with
+  | nil => rfl
+  | cons x xs => simp [List.takeWhile_cons, h x (by simp)]
+
+theorem takeWhile_eq_replicate (l : Bytes) : l.takeWhile (· = 0) = List.replicate (l.takeWhile (· = 0)).length 0 := by
+  induction l with
+  | nil => rfl
+  | cons x xs ih =>
+    by_cases hx : x = 0
+    · subst hx
+      simp only [List.takeWhile_cons, decide_true, if_true, List.length_cons, List.replicate_succ]
+      rw [← ih]
+    · simp [List.takeWhile_cons, hx]
+
+theorem dropWhile_head_not {α : Type} (p : α → Bool) (l : List α) (x : α) (xs : List α)
+    (h : l.dropWhile p = x :: xs) : p x = false := by
+  induction l with
+  | nil => simp at h
+  | cons y ys ih =>
+    rw [List.dropWhile_cons] at h
+    split at h
+    · exact ih h
+    · next hp => cases h; simpa using hp
+
+theorem mapM_map_some {α β : Type} (f : α → β) (g : β → Option α) (l : List α) (h : ∀ x ∈ l, g (f x) = some x) :
+    (l.map f).mapM g = some l := by
+  induction l with
+  | nil => rfl
+  | cons x xs ih =>
+    simp [List.mapM_cons, h x (by simp), ih (fun y hy => h y (by simp [hy]))]
+
+theorem charVal_digitChar : ∀ d : Fin 58, charVal (digitChar d.val) = some d.val := by decide
+
+theorem digitChar_ne_one : ∀ d : Fin 58, d.val ≠ 0 → digitChar d.val ≠ '1' := by decide
+
+/-- the value of a byte string does not depend on its leading zero bytes, and the stripped string is recovered from it -/
+theorem digits_ofDigits_bytes (bs : Bytes) :
+    (digits 256 (ofDigits 256 (bs.map UInt8.toNat))).map UInt8.ofNat = bs.dropWhile (· = 0) := by
+  have hsplit : bs = List.replicate (bs.takeWhile (· = 0)).length 0 ++ bs.dropWhile (· = 0) := by
+    rw [← takeWhile_eq_replicate]; exact (List.takeWhile_append_dropWhile).symm
+  let st := bs.dropWhile (· = 0)
+  let ds := (st.map UInt8.toNat).reverse
+  have hval : ofDigits 256 (bs.map UInt8.toNat) = ofLE 256 ds := by
+    show ofLE 256 (bs.map UInt8.toNat).reverse = ofLE 256 ds
+    conv => lhs; rw [hsplit]
+    simp only [List.map_append, List.map_replicate, List.reverse_append, List.reverse_replicate, UInt8.toNat_zero]
+    exact ofLE_append_zeros 256 _ _
+  have hlt : ∀ d ∈ ds, d < 256 := by
+    intro d hd
+    simp only [ds, List.mem_reverse, List.mem_map] at hd
+    obtain ⟨x, _, rfl⟩ := hd
+    exact x.toNat_lt
+  have hlast : ∀ d, ds.getLast? = some d → d ≠ 0 := by
+    intro d hd
+    simp only [ds, List.getLast?_reverse, List.head?_map] at hd
+    cases hst : st with
+    | nil => simp [hst] at hd
+    | cons x xs =>
+      simp only [hst, List.head?_cons, Option.map_some, Option.some.injEq] at hd
+      have hx : ¬ (x = 0) := by
+        have := dropWhile_head_not (fun (y : UInt8) => decide (y = 0)) bs x xs hst
+        simpa using this
+      intro h0
+      apply hx
+      exact UInt8.toNat_inj.mp (by rw [hd, h0]; rfl)
+  rw [hval]
+  show ((toLE 256 (ofLE 256 ds) (ofLE 256 ds)).reverse).map UInt8.ofNat = st
+  rw [toLE_ofLE 256 (by omega) ds hlt hlast _ (Nat.le_refl _)]
+  simp [ds, List.map_map, Function.comp_def]
+
+theorem decode_encode (bs : Bytes) : decode (encode bs) = some bs := by
+  let z := (bs.takeWhile (· = 0)).length
+  let N := ofDigits 256 (bs.map UInt8.toNat)
+  let dg := digits 58 N
+  have hdg_lt : ∀ d ∈ dg, d < 58 := by
+    intro d hd
+    simp only [dg, digits, List.mem_reverse] at hd
+    exact toLE_lt 58 (by omega) _ _ d hd
+  -- 1. every character maps back to its digit
+  have hmap : (encode bs).mapM charVal = some (List.replicate z 0 ++ dg) := by
+    have : encode bs = (List.replicate z 0 ++ dg).map digitChar := by
+      simp only [encode, List.map_append, List.map_replicate]
+      rfl
+    rw [this]
+    apply mapM_map_some
+    intro d hd
+    rcases List.mem_append.mp hd with h | h
+    · have := (List.mem_replicate.mp h).2
+      subst this
+      exact charVal_digitChar ⟨0, by omega⟩
+    · exact charVal_digitChar ⟨d, hdg_lt d h⟩
+  -- 2. the leading zero digits are exactly the z written ones
+  have hhead : ∀ x, dg.head? = some x → (decide (x = 0)) = false := by
+    intro x hx
+    simp only [dg, digits, List.head?_reverse] at hx
+    have := toLE_getLast 58 (by omega) N N (Nat.le_refl _) x hx
+    simp [this]
+  have htw : (List.replicate z 0 ++ dg).takeWhile (· = 0) = List.replicate z 0 := by
+    rw [takeWhile_zeros_append (fun x => decide (x = 0)) 0 (by simp) z dg, takeWhile_eq_nil_of_head _ dg hhead, List.append_nil]
+  -- 3. the number is recovered
+  have hnum : ofDigits 58 (List.replicate z 0 ++ dg) = N := by
+    simp only [ofDigits, dg, digits, List.reverse_append, List.reverse_reverse, List.reverse_replicate]
+    rw [ofLE_append_zeros, ofLE_toLE 58 (by omega) N N (Nat.le_refl _)]
+  simp only [decode, hmap, Option.map_some, decodeDigits, htw, List.length_replicate, hnum]
+  rw [digits_ofDigits_bytes bs]
+  have : List.replicate z (0 : UInt8) = bs.takeWhile (· = 0) := (takeWhile_eq_replicate bs).symm
+  rw [this, List.takeWhile_append_dropWhile]
+
+end Base58
+
 /-! ### Storage scheme -/
 
 section Scheme
@@ -281,17 +505,28 @@ theorem valueKeyInput_injective {c₁ n₁ c₂ n₂ : Bytes} (h1 : c₁.length 
   refine ⟨hcc, ?_⟩
   exact (List.append_inj hr2 (by simp [length_be32])).2
 
+theorem be32_wrap (N : Nat) (h : N % 2 ^ 32 = 0) : Bytes.be32 N = List.replicate 4 0 := by
+  have a : N / 16777216 % 256 = 0 := by omega
+  have b : N / 65536 % 256 = 0 := by omega
+  have c : N / 256 % 256 = 0 := by omega
+  have d : N % 256 = 0 := by omega
+  simp only [Bytes.be32, a, b, c, d]
+  rfl
+
 /-- beyond 2³² bytes the length prefix wraps (as the `as u32` cast of the code does): the hypothesis is necessary -/
 theorem valueKeyInput_collision_unbounded :
     ∃ c₁ n₁ c₂ n₂ : Bytes, (c₁, n₁) ≠ (c₂, n₂) ∧ valueKeyInput c₁ n₁ = valueKeyInput c₂ n₂ := by
-  refine ⟨List.replicate (2 ^ 32) 0, [], [], List.replicate (2 ^ 32) 0, ?_, ?_⟩
+  obtain ⟨N, hN⟩ : ∃ N : Nat, N = 2 ^ 32 := ⟨_, rfl⟩
+  have hw : N % 2 ^ 32 = 0 := by omega
+  refine ⟨List.replicate N 0, [], [], List.replicate N 0, ?_, ?_⟩
   · intro h
     have := congrArg (fun p => p.2.length) h
-    simp at this
-  · have e : Bytes.be32 (2 ^ 32) = List.replicate 4 0 := by decide
-    have e0 : Bytes.be32 0 = List.replicate 4 0 := by decide
-    simp only [valueKeyInput, List.length_replicate, List.length_nil, e, e0, List.append_nil, List.nil_append,
+    simp only [List.length_nil, List.length_replicate] at this
+    omega
+  · have e0 : Bytes.be32 0 = List.replicate 4 0 := be32_wrap 0 (by omega)
+    simp only [valueKeyInput, List.length_replicate, List.length_nil, be32_wrap N hw, e0, List.append_nil,
       List.replicate_append_replicate]
+    rw [Nat.add_comm]
 
 /-! key reference -/
 
